@@ -810,8 +810,11 @@ impl Mp4TrackWriter {
         if self.trak.mdia.mdhd.duration > (u32::MAX as u64) {
             self.trak.mdia.mdhd.version = 1
         }
-        self.trak.tkhd.duration +=
-            dur as u64 * movie_timescale as u64 / self.trak.mdia.mdhd.timescale as u64;
+        self.trak.tkhd.duration = u64::try_from(
+            self.trak.mdia.mdhd.duration as u128 * movie_timescale as u128
+                / self.trak.mdia.mdhd.timescale as u128,
+        )
+        .unwrap_or(u64::MAX);
         if self.trak.tkhd.duration > (u32::MAX as u64) {
             self.trak.tkhd.version = 1
         }
